@@ -485,6 +485,39 @@ def gen_subs_case(rng, P):
     g.procs[1] = prog
     return 'core', g.lines()
 
+def gen_flush_case(rng, P):
+    """the flush at loop stop: messages still in the pipes when the loop is told to quit reach their RUNNING recipients before the loop call
+    returns -- also when a handler run by that flush registers or deregisters ANOTHER module (the walk over the module table is interrupted
+    and has to be taken up again), pauses or stops a later recipient, or sends further messages"""
+    nrec = rng.randint(3, 5); nh = rng.randint(2, 3)
+    g = _base(rng, P, 1 + nrec + nh, hooks=rng.random() < 0.2)
+    rec = list(range(1, 1 + nrec)); helpers = list(range(1 + nrec, 1 + nrec + nh))
+    fresh = [h for h in helpers if rng.random() < 0.5]           # not registered at the beginning: a handler may register it (once)
+    old = [h for h in helpers if h not in fresh]
+    prog = ['ctxreg 1'] + ['reg %d' % i for i in [0] + rec + old] + ['start %d' % i for i in [0] + rec] + ['start %d' % h for h in old if rng.random() < 0.5]
+    for r in rec:
+        specs = []
+        for _ in range(rng.randint(1, 2)):
+            x = rng.random(); body = []
+            if x < 0.3 and fresh: body = ['reg %d' % fresh.pop()]
+            elif x < 0.6 and old: body = ['dereg %d' % rng.choice(old)]
+            elif x < 0.7: body = [rng.choice(['pause', 'stop']) + ' %d' % rng.choice(rec)]
+            elif x < 0.8: body = ['tell %d %d %d 0' % (r, rng.choice(rec), g.newdata())]
+            specs.append('%d:1' % (g.newproc(body) if body else 0))
+        g.cbs = [c for c in g.cbs if not c.startswith('cb %d evt 0 ' % r)] + ['cb %d evt 0 %s' % (r, ' '.join(specs))]
+    prog.append('dispatch')                                        # the loop starts
+    for _ in range(rng.randint(1, 2)):
+        sends = ['tell 0 %d %d 0' % (r, g.newdata()) for r in rec if rng.random() < 0.85]
+        if rng.random() < 0.3: sends.append('broadcast 0 %d 0' % g.newdata())
+        rng.shuffle(sends)
+        prog += sends + ['quit %d' % rng.randint(1, 9), 'dispatch'] + ['state %d' % r for r in rec] + ['live', 'dispatch']
+    prog += ['live'] + ['dereg %d' % i for i in [0] + rec + helpers] + ['ctxdereg', 'live']
+    g.procs[1] = prog
+    return 'core', g.lines()
+
+def gen_subs_or_flush_case(rng, P):
+    return gen_flush_case(rng, P) if rng.random() < 0.35 else gen_subs_case(rng, P)
+
 def gen_pill_case(rng, P):
     """poison pills against everything that can be in the recipient's mailbox: earlier and later user messages (every priority), system
     notifications (the recipient subscribes to the system topics), batched events, pill and quit from the same callback, loop stop flush"""
